@@ -62,6 +62,8 @@ def _run_chunk(indices):
 
 
 def _worker(indices):
+    import signal as _sg
+    faulthandler.register(_sg.SIGUSR1, all_threads=True)
     """One chunk = one forked child, so that the process state a run can see is
     exactly the earlier runs of its chunk (recorded as the replay prefix)."""
     import pickle
@@ -116,14 +118,14 @@ def _worker(indices):
     return out
 
 
-def _minimise_and_write(prop, r, tier):
+def _minimise_and_write(prop, r, tier, deadline=None):
     os.makedirs(REPLAYS, exist_ok=True)
     t0 = time.time()
     prefix = list(r.extra or [])
     if r.vclass in ('no_progress', 'interpreter_crash'):   # re-executions are expensive / uninformative: do not minimise
         tape, last, n = None, None, 0
     else:
-        tape, prefix2, last, n = minimise(prop, r.tape, r.vclass, tier, prefix=prefix)
+        tape, prefix2, last, n = minimise(prop, r.tape, r.vclass, tier, prefix=prefix, deadline=deadline)
         if last is not None:
             prefix = prefix2
     reproduced = last is not None
@@ -163,6 +165,8 @@ def run_check(pid, tier, batch_seed=None, nproc=None, runs=None, time_budget=Non
     if batch_seed is None:
         batch_seed = int(os.environ.get('VERIF_SEED', '0') or 0)
     env.boot()
+    import signal as _sg
+    faulthandler.register(_sg.SIGUSR1, all_threads=True)
     prop = load_prop(pid)
     if hasattr(prop, 'setup'):
         prop.setup()
@@ -236,9 +240,11 @@ def run_check(pid, tier, batch_seed=None, nproc=None, runs=None, time_budget=Non
     for kid, (k, n) in sorted(known_hit.items()):
         print('KNOWN-FINDING: property=%s %s (hit in %d runs)' % (pid, k['what'], n))
     replay_paths = []
+    # minimisation is bounded: at most ~25 s per violation class and ~75 s in total
+    t_min = time.time()
     for vclass, vs in sorted(new_by_class.items()):
         v = vs[0]
-        path, last, stable = _minimise_and_write(prop, v, tier)
+        path, last, stable = _minimise_and_write(prop, v, tier, deadline=min(time.time() + 25, t_min + 75))
         # the minimised run may itself land on a known finding's signature; keep original then
         replay_paths.append(path)
         print('  class=%s runs=%d first_index=%d detail=%s' % (vclass, len(vs), v.index, (last.detail or '')[:400]))
